@@ -106,7 +106,7 @@ func main() {
 		if p.Module != nil {
 			modPath = p.Module.Path
 		}
-		if strings.HasSuffix(p.PkgPath, "/verifseam") {
+		if strings.HasSuffix(p.PkgPath, "/verifseam") || strings.HasSuffix(p.PkgPath, "/verifexport") {
 			continue
 		}
 		seamImport := modPath + "/verifseam"
@@ -281,6 +281,7 @@ func main() {
 		}
 	}
 	replace[filepath.Join(*repo, "verifseam", "seam.go")] = filepath.Join(*seam, "seam.go")
+	replace[filepath.Join(*repo, "verifexport", "export.go")] = filepath.Join(*seam, "export.go")
 	ob, _ := json.MarshalIndent(map[string]any{"Replace": replace}, "", " ")
 	if err := os.WriteFile(filepath.Join(*out, "overlay.json"), ob, 0o644); err != nil {
 		fmt.Fprintln(os.Stderr, err)
